@@ -3,6 +3,7 @@
                  every in-scope edge must be ranked; known findings present in the table are reported under their id.
    op "replay" : a deadlock replay executed by the harness on the real code (two-goroutine schedule, timeout,
                  go-deadlock report); a replay that blocks is a finding under the id of its scenario.
+   op "final"  : a concurrent final-state scenario executed by the harness on the real objects (expected vs settled state).
    op "policy" : print the exclusion list (trusted base) — used by ./check to show it. -/
 import YkDrv.Util
 import YkModel.LockPolicy
@@ -59,6 +60,21 @@ def lockStep (j : Json) : Except String String := do
     else if crash then pure s!"inv C14.{name} replay on the real code: the Go runtime aborts the process: {clip detail 900}"
     else if dl then pure s!"inv C14.{name} replay on the real code blocks for good: {clip detail 900}"
     else if expect == "deadlock" || expect == "crash" || expect == "drift" then pure "ok unmodelled replay did not fail in this run"
+    else pure "ok"
+  | "final" =>
+    -- concurrent final-state scenario (harness/lockfinal.go): several goroutines drive the real objects at the same
+    -- instant from a clean state; after everything settled the final state must equal the sum of what was done
+    let sc ← (fld j "scenario") >>= jStr
+    let seed := (fldD j "seed" (Json.num 0)).compress
+    let n := (jNat (fldD j "nmismatch" (Json.num 0))).toOption.getD 0
+    let checks := (jNat (fldD j "checks" (Json.num 0))).toOption.getD 0
+    let crashed := (jBool (fldD j "crash" (Json.bool false))).toOption.getD false
+    let detail := (fldD j "detail" (Json.str "")).getStr?.toOption.getD ""
+    let ms := ((jArr (fldD j "mismatches" (Json.arr #[]))).toOption.getD #[]).toList.filterMap (fun x => x.getStr?.toOption)
+    if crashed then pure s!"inv C14.final-state[{sc}] seed {seed}: the scenario died: {clip detail 700}"
+    else if n > 0 then
+      pure s!"inv C14.final-state[{sc}] seed {seed}: {n} of {checks} comparisons of the settled state with what the goroutines did fail ({detail}); first: {clip (" | ".intercalate (ms.take 3)) 900}"
+    else if checks == 0 then throw s!"final-state scenario {sc} made no comparison"
     else pure "ok"
   | "stress" =>
     -- thorough tier, evidence only: concurrent full stack under -race with go-deadlock enabled
